@@ -25,7 +25,9 @@ TRUSTED = ["T0 state inventory scan (harness/gen_tables.py: scan_state)", "impor
 ASSUMES = ["files are inputs: when a history changes them (fs_histories) the reference is a fresh process in the same file state; HOME, process cwd and environment are inputs, not history", "the vendored parser keeps no state between parse() calls (its module defines no mutated global: part of the T0 scan)"]
 
 HIST = os.path.join(os.path.dirname(os.path.dirname(os.path.abspath(__file__))), "history_proc.py")
-CONFIGS = ["", "allow frob\ndeny rm -rf *\nask git push *\nallow-redirect /tmp/ok\n", "deny find * -delete\nallow python3 *\ndeny curl *\nalias g git\n"]
+CONFIGS = ["", "allow frob\ndeny rm -rf *\nask git push *\nallow-redirect /tmp/ok\n", "deny find * -delete\nallow python3 *\ndeny curl *\nalias g git\n",
+           # rules with cwd-relative path tokens: what they denote depends on the effective cwd of each match
+           "allow ./run.sh\nallow tools/*\ndeny ./danger.sh \"use make\"\nallow-redirect out/**\nalias ./mk frob\n"]
 
 
 def corr_lru(model, r, n):
@@ -125,6 +127,7 @@ def gen_pool(r, home):
     special = [
         "find . -name x -delete", "curl -o out http://x", "curl http://x", "sed -i s/a/b/ f", "sed -n p f", "echo a | xargs rm -f x", "xargs -I {} ls {}", "git push origin main", "git status", "g push x",
         "rm -rf build", "frob x", "ls > /tmp/ok", "ls > /tmp/nope", "sort -o f f", "tee out.txt", "awk '{print}' f", "docker exec c ls", "kubectl get pods", "kubectl delete pod x", "sh -c 'rm x'", "env -S 'rm x'",
+        "./run.sh", "./run.sh x", "cd sub && ls", "cd sub && ./run.sh", "tools/wipe --all", "sub/tools/wipe --all", "cd sub && tools/wipe", "./danger.sh", "cd sub && ./danger.sh", "ls > out/a", "cd sub && ls > out/a", "./mk x", "cd .. && ./run.sh",
         "python3 " + os.path.join(home, "safe.py"), "python3 " + os.path.join(home, "unsafe.py"), "timeout 5 rm x", "nice ls", "cat $(rm x)", "tar -tf a.tar", "tar -xf a.tar", "npm install", "pip list",
     ]
     for s in special:
@@ -239,7 +242,7 @@ def search(ctx):
 
         def gen_query():
             if r.chance(0.65):
-                return {"kind": "analyze", "cmd": r.pick(pool), "config": r.pick(CONFIGS), "cwd": r.pick([home, "/tmp/probe"])}
+                return {"kind": "analyze", "cmd": r.pick(pool), "config": r.pick(CONFIGS), "cwd": r.pick([home, "/tmp/probe", os.path.join(home, "sub")]), "reuse": r.chance(0.7)}
             cmd = r.pick(pool)
             cwd = projs[r.pick(sorted(projs))]
             shape = r.pick(["claude", "gemini", "cursor", "post", "mcp", "bad"])
@@ -267,6 +270,13 @@ def search(ctx):
             for _ in range(15):
                 qs.insert(r.randint(len(qs) // 2, len(qs)), r.pick(qs[: len(qs) // 2]))
             hists.append((r.pick(modes), qs))
+
+        # directed: one Config object serving a run of commands whose rules denote different files under different effective cwds
+        rel_cmds = ["./run.sh", "./run.sh x", "cd sub && ls", "cd sub && ./run.sh", "tools/wipe --all", "sub/tools/wipe --all", "cd sub && tools/wipe", "./danger.sh", "cd sub && ./danger.sh", "ls > out/a", "cd sub && ls > out/a",
+                    "./mk x", "cd .. && ./run.sh", "cd sub && ls -l", "make test", "sub/run.sh", "cd /tmp && ./run.sh"]
+        for _ in range(ctx.scale(6, 100) * (2 if ctx.broken else 1)):
+            qs = [{"kind": "analyze", "cmd": r.pick(rel_cmds), "config": CONFIGS[3], "cwd": r.pick([home, os.path.join(home, "sub"), "/tmp/probe"]), "reuse": True} for _ in range(25)]
+            hists.append((None, qs))
 
         def run_hist(hq):
             mode, qs = hq
